@@ -73,10 +73,11 @@ def warmup(tier: str) -> None:
     # systems (named bodies) cannot.
     U["sys_real"] = {k: System.from_mu(float(v.mu)) for k, v in U["sys_twin"].items()}
     _TMPDIR = tempfile.mkdtemp(prefix="verif_c20_")
-    from checks import c20_orbit, c20_cm, c20_manifold
+    from checks import c20_orbit, c20_cm, c20_manifold, c20_torus
     c20_orbit.warmup(U, tier)
     c20_cm.warmup(U, tier)
     c20_manifold.warmup(U, tier)
+    c20_torus.warmup(U, tier)
 
 
 def tmp_path(name: str) -> str:
@@ -219,14 +220,16 @@ def faulty_open(limit: int, kind: str):
 
 # --------------------------------------------------------------------------- dispatch
 def execute(ctx: RunCtx) -> None:
-    from checks import c20_orbit, c20_cm, c20_manifold
-    kind = ctx.ds.pick(["orbit", "cm", "manifold"], "machine", (0.5, 0.35, 0.15))
+    from checks import c20_orbit, c20_cm, c20_manifold, c20_torus
+    kind = ctx.ds.pick(["orbit", "cm", "manifold", "torus"], "machine", (0.47, 0.33, 0.1, 0.1))
     if kind == "orbit":
         c20_orbit.run_history(ctx, U)
     elif kind == "cm":
         c20_cm.run_history(ctx, U)
-    else:
+    elif kind == "manifold":
         c20_manifold.run_history(ctx, U)
+    else:
+        c20_torus.run_history(ctx, U)
 
 
 LEGS = {"history": execute}
@@ -251,10 +254,10 @@ def pre_phases(report, cfg, procs):
     """Bounded-exhaustive sweep: every history of length <= enum_len over each machine's reduced alphabet."""
     from simkit.driver import run_jobs
     import checks.c20 as me
-    from checks import c20_orbit, c20_cm, c20_manifold
+    from checks import c20_orbit, c20_cm, c20_manifold, c20_torus
     jobs = []
     tag = 0
-    for mod in (c20_orbit, c20_cm, c20_manifold):
+    for mod in (c20_orbit, c20_cm, c20_manifold, c20_torus):
         for vals in mod.enumeration(cfg["enum_len"]):
             jobs.append(("values", tag, "history", vals))
             tag += 1
